@@ -733,7 +733,8 @@ class C06(Prop):
     technique = ('harness-owned schedules: real layer subprocesses block at generated barrier points and are released in a '
                  'Hypothesis-generated order (completion permutation + interleaving of partial outputs); differential '
                  'against the sequential run, block-structure oracle over the parent output, alive-interval bound from '
-                 'the trace; exhaustive completion orders for k<=3 in the thorough tier')
+                 'the trace; exhaustive completion orders for k<=3 in the thorough tier; injected spawn failure of one layer; a '
+                 'child that prints progress marks all the time while a slot is free (time stamps of the hook trace)')
     level_text = ('Generated worlds (1..4 layers + unit tests, 1..3 barrier points per layer, failing/erroring/skipped '
                   'tests, -v 0..3 i.e. all three result collectors, N in 1..k+1) are run sequentially and with -j N while '
                   'the harness decides which waiting child proceeds next. Same executed tests and phases, verdict, '
